@@ -255,6 +255,9 @@ structure DoneFrame (m : Machine) (z : VBus) : Prop where
   wf : z.doneAnchor.WF
   coh : z.doneAnchor.Coherent
   level : z.doneAnchor.Level
+  /-- the frame in progress started with the displayed bytes that frame ended with -/
+  carry : ∀ off, off < 0x1B00 → (z.frameStart.screen.bank z.frameStart.screen.active).mem off =
+    (z.doneAnchor.screen.bank z.doneAnchor.screen.active).mem off
 
 /-- the C08 invariants of a bus state -/
 structure SGood (m : Machine) (z : VBus) : Prop where
@@ -269,10 +272,15 @@ structure SGood (m : Machine) (z : VBus) : Prop where
   inv : FrameInvP z.anchor z.ctl
   fresh : z.touches = 0 → z.anchor.screen.last.idx = 0
   done : 1 ≤ z.ctl.passedFrames → DoneFrame m z
+  /-- while the frame in progress is untouched the anchor is its start -/
+  start0 : z.touches = 0 → z.anchor = z.frameStart
+
+theorem Ctl.Same.active {c c' : Ctl} (h : c.Same c') (hw : c.WF) : c'.screen.active = c.screen.active := by
+  rw [h.wf.active, hw.active, h.machine, h.port]
 
 theorem SGood.new (m : Machine) (inp : Nat → BitVec 8) : SGood m (VBus.new m inp) :=
   ⟨rfl, Ctl.new_wf m, Ctl.new_coherent m, Ctl.new_level m, rfl, Ctl.new_wf m, Ctl.new_coherent m, Ctl.new_level m,
-    FrameInvP.init _, fun _ => rfl, fun h => absurd h (Nat.not_succ_le_zero 0)⟩
+    FrameInvP.init _, fun _ => rfl, fun h => absurd h (Nat.not_succ_le_zero 0), fun _ => rfl⟩
 
 theorem VBus.pass_same (z : VBus) (c' : Ctl) (h : c'.passedFrames = z.ctl.passedFrames) :
     z.pass c' = { z with ctl := c' } := by
@@ -299,14 +307,14 @@ theorem SGood.wait {m : Machine} {z : VBus} (h : SGood m z) (clk : Nat) (hk : cl
       exact (processClocks_frame z.ctl.screen h.wf.screen _).2.1
     rw [VBus.pass_same _ _ hpf]
     refine ⟨hs.machine.trans h.mach, hs.wf, hs.coherent h.coh, hlev, h.amach, h.awf, h.acoh, h.alevel,
-      h.inv.wait h.awf h.acoh h.wf h.level.beam clk hin, h.fresh, ?_⟩
+      h.inv.wait h.awf h.acoh h.wf h.level.beam clk hin, h.fresh, ?_, h.start0⟩
     intro h1
     have d := h.done (by rw [← hpf]; exact h1)
     exact ⟨fun p dd hp => by
         show (z.ctl.waitInternal clk).screen.front.getD p dd = _
         rw [hfront]; exact d.pixels p dd hp,
       d.fresh, by show z.doneAnchor.passedFrames + 1 = (z.ctl.waitInternal clk).passedFrames; rw [hpf]; exact d.frame,
-      d.mach, d.wf, d.coh, d.level⟩
+      d.mach, d.wf, d.coh, d.level, d.carry⟩
   · have hend : z.ctl.machine.clocksFrame ≤ z.ctl.frameClocks + clk := by omega
     have hpf : (z.ctl.waitInternal clk).passedFrames = z.ctl.passedFrames + 1 := by
       rw [waitInternal_end _ _ hend]
@@ -314,12 +322,16 @@ theorem SGood.wait {m : Machine} {z : VBus} (h : SGood m z) (clk : Nat) (hk : cl
       rw [waitInternal_end _ _ hend]; rfl
     rw [VBus.pass_rot _ _ (by omega)]
     refine ⟨hs.machine.trans h.mach, hs.wf, hs.coherent h.coh, hlev, hs.machine.trans h.mach, hs.wf,
-      hs.coherent h.coh, hlev, FrameInvP.init _, fun _ => ?_, fun _ => ?_⟩
+      hs.coherent h.coh, hlev, FrameInvP.init _, fun _ => ?_, fun _ => ?_, fun _ => rfl⟩
     · show (z.ctl.waitInternal clk).screen.last.idx = 0
       rw [hlast]; rfl
-    · exact ⟨h.inv.finish h.awf h.acoh h.wf h.level.beam clk hend, h.fresh,
+    · refine ⟨h.inv.finish h.awf h.acoh h.wf h.level.beam clk hend, h.fresh,
         by show z.anchor.passedFrames + 1 = (z.ctl.waitInternal clk).passedFrames; rw [hpf, h.inv.passed],
-        h.amach, h.awf, h.acoh, h.alevel⟩
+        h.amach, h.awf, h.acoh, h.alevel, ?_⟩
+      intro off hoff
+      show ((z.ctl.waitInternal clk).screen.bank (z.ctl.waitInternal clk).screen.active).mem off = _
+      rw [hs.active h.wf, hs.bank]
+      exact h.inv.vis off hoff
 
 theorem SGood.doContention {m : Machine} {z : VBus} (h : SGood m z) : SGood m z.doContention :=
   h.wait _ (by have := contentionClocks_le z.ctl.machine z.ctl.frameClocks; omega)
@@ -353,7 +365,8 @@ theorem SGood.ioLast {m : Machine} {z : VBus} (h : SGood m z) (p : BitVec 16) : 
 theorem SGood.touch {m : Machine} {z : VBus} (mach : z.ctl.machine = m) (wf : z.ctl.WF) (coh : z.ctl.Coherent)
     (level : z.ctl.Level) (done : 1 ≤ z.ctl.passedFrames → DoneFrame m z) : SGood m z.touch :=
   ⟨mach, wf, coh, level, mach, wf, coh, level, FrameInvP.init _, fun h => absurd h (Nat.succ_ne_zero _),
-    fun h1 => let d := done h1; ⟨d.pixels, d.fresh, d.frame, d.mach, d.wf, d.coh, d.level⟩⟩
+    fun h1 => let d := done h1; ⟨d.pixels, d.fresh, d.frame, d.mach, d.wf, d.coh, d.level, d.carry⟩,
+    fun h => absurd h (Nat.succ_ne_zero _)⟩
 
 /-- **`write_internal`** -/
 theorem SGood.store {m : Machine} {z : VBus} (h : SGood m z) (a : BitVec 16) (v : BitVec 8) : SGood m (z.store a v) := by
@@ -369,7 +382,7 @@ theorem SGood.store {m : Machine} {z : VBus} (h : SGood m z) (a : BitVec 16) (v 
         show (z.ctl.writeInternal a v).screen.front.getD p dd = _
         rw [e6]; exact d.pixels p dd hp,
       d.fresh, by show z.doneAnchor.passedFrames + 1 = (z.ctl.writeInternal a v).passedFrames; rw [e3]; exact d.frame,
-      d.mach, d.wf, d.coh, d.level⟩
+      d.mach, d.wf, d.coh, d.level, d.carry⟩
   unfold VBus.store
   simp only
   cases hh : z.ctl.hitsDisplayed a with
@@ -378,7 +391,7 @@ theorem SGood.store {m : Machine} {z : VBus} (h : SGood m z) (a : BitVec 16) (v 
     exact SGood.touch (z := { z with ctl := z.ctl.writeInternal a v }) (e2.trans h.mach) w k hlev hdone
   | false =>
     simp only [Bool.false_eq_true, if_false]
-    refine ⟨e2.trans h.mach, w, k, hlev, h.amach, h.awf, h.acoh, h.alevel, ?_, h.fresh, hdone⟩
+    refine ⟨e2.trans h.mach, w, k, hlev, h.amach, h.awf, h.acoh, h.alevel, ?_, h.fresh, hdone, h.start0⟩
     refine ⟨e7.trans h.inv.active, e8.trans h.inv.flash, e6.trans h.inv.front, ?_, ?_, ?_, ?_, e3.trans h.inv.passed⟩
     · intro off hoff
       show ((z.ctl.writeInternal a v).screen.bank (z.ctl.writeInternal a v).screen.active).mem off = _
@@ -403,9 +416,10 @@ theorem SGood.device {m : Machine} {z : VBus} (h : SGood m z) (p : BitVec 16) (v
   generalize hz1 : (if ulaRouted p then
       { z with ulaWrites := z.ulaWrites ++ [(z.ctl.frameClocks, (v &&& 0x07).setWidth 3)], ulaHist := z.ulaHist ++ [v] }
     else z : VBus) = z1
-  have f1 : z1.anchor = z.anchor ∧ z1.touches = z.touches ∧ z1.doneAnchor = z.doneAnchor ∧ z1.doneTouches = z.doneTouches := by
-    rw [← hz1]; split <;> exact ⟨rfl, rfl, rfl, rfl⟩
-  obtain ⟨g1, g2, g3, g4⟩ := f1
+  have f1 : z1.anchor = z.anchor ∧ z1.touches = z.touches ∧ z1.doneAnchor = z.doneAnchor ∧ z1.doneTouches = z.doneTouches ∧
+      z1.frameStart = z.frameStart := by
+    rw [← hz1]; split <;> exact ⟨rfl, rfl, rfl, rfl, rfl⟩
+  obtain ⟨g1, g2, g3, g4, g5⟩ := f1
   have hdone : 1 ≤ (z.ctl.ioDevice p v).passedFrames → DoneFrame m { z1 with ctl := z.ctl.ioDevice p v } := by
     intro h1
     have d := h.done (by rw [← e3]; exact h1)
@@ -420,14 +434,19 @@ theorem SGood.device {m : Machine} {z : VBus} (h : SGood m z) (p : BitVec 16) (v
       by show z1.doneAnchor.machine = m; rw [g3]; exact d.mach,
       by show z1.doneAnchor.WF; rw [g3]; exact d.wf,
       by show z1.doneAnchor.Coherent; rw [g3]; exact d.coh,
-      by show z1.doneAnchor.Level; rw [g3]; exact d.level⟩
+      by show z1.doneAnchor.Level; rw [g3]; exact d.level,
+      by
+        intro off hoff
+        show (z1.frameStart.screen.bank z1.frameStart.screen.active).mem off =
+          (z1.doneAnchor.screen.bank z1.doneAnchor.screen.active).mem off
+        rw [g5, g3]; exact d.carry off hoff⟩
   unfold VBus.device
   simp only [hz1]
   by_cases hact : (z.ctl.ioDevice p v).screen.active = z.ctl.screen.active
   · rw [if_pos hact]
     have hbank : ∀ i, (z.ctl.ioDevice p v).screen.bank i = z.ctl.screen.bank i := by
       intro i; cases i <;> simp [Screen.bank, b0, b1]
-    refine ⟨e2.trans h.mach, w, k, hlev, ?_, ?_, ?_, ?_, ?_, ?_, hdone⟩
+    refine ⟨e2.trans h.mach, w, k, hlev, ?_, ?_, ?_, ?_, ?_, ?_, hdone, ?_⟩
     · show z1.anchor.machine = m; rw [g1]; exact h.amach
     · show z1.anchor.WF; rw [g1]; exact h.awf
     · show z1.anchor.Coherent; rw [g1]; exact h.acoh
@@ -445,6 +464,8 @@ theorem SGood.device {m : Machine} {z : VBus} (h : SGood m z) (p : BitVec 16) (v
         exact h.inv.new q d h1 (by rw [← e4]; exact h2)
     · show z1.touches = 0 → z1.anchor.screen.last.idx = 0
       rw [g1, g2]; exact h.fresh
+    · show z1.touches = 0 → z1.anchor = z1.frameStart
+      rw [g1, g2, g5]; exact h.start0
   · rw [if_neg hact]
     exact SGood.touch (z := { z1 with ctl := z.ctl.ioDevice p v }) (e2.trans h.mach) w k hlev hdone
 
@@ -456,7 +477,7 @@ theorem SGood.readIo {m : Machine} {z : VBus} (h : SGood m z) (p : BitVec 16) : 
   have g := ((h.ioFirst p).ioLast p).wait 1 (by omega)
   unfold VBus.readIo
   exact ⟨g.mach, g.wf, g.coh, g.level, g.amach, g.awf, g.acoh, g.alevel, g.inv, g.fresh,
-    fun h1 => let d := g.done h1; ⟨d.pixels, d.fresh, d.frame, d.mach, d.wf, d.coh, d.level⟩⟩
+    fun h1 => let d := g.done h1; ⟨d.pixels, d.fresh, d.frame, d.mach, d.wf, d.coh, d.level, d.carry⟩, g.start0⟩
 
 /-! ## following the ghost records (no hypothesis on the state at all) -/
 
